@@ -10,6 +10,6 @@ if [ "$NAME" != clean ]; then (cd "$D/repo" && patch -p1 -s < /verif/seeded/$NAM
 rsync -a /verif/lean/ "$D/lean/"
 cd /verif
 for sd in ${@:-0}; do
-  VERIF_SEED=$sd NPS_REPO="$D/repo" VERIF_OUT_DIR="$D/out" VERIF_LEAN_DIR="$D/lean" ./check $CHK ${TIER:-quick} 2>&1 | grep -v "^KNOWN\|Warning\|warn" | tail -1 | cut -c1-170
+  VERIF_SEED=$sd NPS_REPO="$D/repo" VERIF_OUT_DIR="$D/out" VERIF_LEAN_DIR="$D/lean" ./check $CHK ${TIER:-quick} 2>&1 | grep -v "^KNOWN\|Warning\|warn" | grep "no-failing-input-found\|INFRA\|^C[0-9][0-9] " | sort -u | cut -c1-170
 done
 rm -rf "$D"
